@@ -24,7 +24,10 @@
    H2   `groups_ordered_every_batch` (groupsOrdered = the enabled user groups after EVERY batch)
    C2   `valid_unique`, `lookup_by_name_checked_source` (the lookup theorem for every history of a source that checks
         the name at the moment of the edit: renames and reuse of freed names included), `lookup_after_reuse`
-   Helper developments: SH/Lemmas/Journal.lean (E, F, G), SH/Lemmas/JournalConv.lean (J).
+   K    two hops relative to the source with aggregator rollbacks: `two_hop_converges_no_skip`,
+        `two_hop_agents_same_hash` (non-compact chain); `two_hop_compact_rollback_counterexample` (FINDING: false for a
+        compact aggregator restarted from an older file)
+   Helper developments: SH/Lemmas/Journal.lean (E, F, G), SH/Lemmas/JournalConv.lean (J), SH/Lemmas/JournalChain.lean (K).
    Partial: a replica whose upstream itself is rolled back (agent behind a restarting aggregator) is outside
    `converges` (comment after `replicas_same_hash`); the direct oracle of cmd/verif-c20 checks it on the real code.
 -/
@@ -32,6 +35,7 @@ import SH.Model.Journal
 import SH.Model.MetaIndex
 import SH.Lemmas.Journal
 import SH.Lemmas.JournalConv
+import SH.Lemmas.JournalChain
 
 namespace SH.C20
 open SH.MetaIndex
@@ -922,13 +926,10 @@ theorem replicas_same_hash (tab : Nat → Content) (c : Bool) (hT : TabOK tab c)
   exact synced_same_hash tab w1.R w2.R w1.U i1.conv conv2 i1.jR i2.jR i1.jU (c1.trans c2.symm) s1 s2
 
 /-
-  What is still outside the theorem: a replica whose *upstream itself* is rolled back (an agent behind an aggregator
-  that restarts from an old or truncated file). `converges` covers source → aggregator completely (the source is never
-  rolled back) and aggregator → agent for as long as the aggregator's journal only grows; with upstream rollbacks the
-  agent can be transiently ahead of the aggregator and the invariant relative to the immediate upstream does not hold
-  (it would have to be stated relative to the source, through two `storedAs` maps and content-equal version skips).
-  cmd/verif-c20 checks that case on the real code (replicas 2,3 behind the restarting compact aggregator 1; oracle
-  signatures replica-missing-entity / replica-stale-entity / replica-extra-entity / hash-diverged*).
+  A replica whose *upstream itself* is rolled back (an agent behind an aggregator that restarts from an old or truncated
+  file) is outside `converges`; it is section K: proved relative to the source for chains without the compaction skip
+  (`two_hop_converges_no_skip`), and FALSE of the code for a compact aggregator
+  (`two_hop_compact_rollback_counterexample`, known finding).
 -/
 
 /-- the observed functions of the witness table satisfy `TabOK` for both kinds (hypothesis of `converges` is satisfiable) -/
@@ -1237,5 +1238,78 @@ theorem lookup_after_reuse :
   simp only [wH, List.mem_cons, List.not_mem_nil, or_false] at he
   rcases he with rfl | rfl | rfl | rfl <;> first | rfl | (exfalso; revert hid; decide)
 
+
+/-! ## K. two hops, the aggregator may be rolled back (SH/Lemmas/JournalChain.lean) -/
+
+/-- C20 (two hops, relative to the SOURCE, aggregator restarts allowed) — for chains without the compaction skip.
+    Source S → aggregator A → agent G, both replicas non-compact. EVERY schedule of source edits, deliveries on either hop
+    (any limits, any cut), saves and restarts of EITHER replica from an old and / or truncated file — so the agent can be
+    ahead of a rolled-back aggregator, and `getJournalDiffLocked3` is then asked for a version above the aggregator's own
+    (it answers with nothing and the agent waits; nothing is skipped later). Whenever the agent's loaderVersion has
+    reached the source's version, the agent holds exactly the source's current entities, each transported twice, with the
+    source's version (and the same for the aggregator with one transport). -/
+theorem two_hop_converges_no_skip (tab : Nat → Content)
+    (hkey : ∀ k, (tab (tab k).t).typ = (tab k).typ ∧ (tab (tab k).t).id = (tab k).id) (hsz : ∀ k, 0 < (tab k).sz)
+    (ops : List Op2) (w : W2) (h : run2 tab {} ops = some w) :
+    (w.S.cur ≤ w.G.lv → ∀ r, r ∈ w.G.entries ↔ ∃ s ∈ w.S.entries, r = img tab 2 s) ∧
+    (w.S.cur ≤ w.A.lv → ∀ r, r ∈ w.A.entries ↔ ∃ s ∈ w.S.entries, r = img tab 1 s) ∧
+    JInv w.G ∧ JInv w.A := by
+  obtain ⟨H, hS, hA, _, hG, _⟩ := run2_inv tab hkey hsz ops {} w (inv2_init tab) h
+  exact ⟨fun hs => chain_synced tab hkey 2 _ _ H hS hG hs, fun hs => chain_synced tab hkey 1 _ _ H hS hA hs,
+    hG.jx.inv, hA.jx.inv⟩
+
+/-- …and two agents (of possibly different aggregators, with different rollback histories) over the same source
+    journal have equal state hashes whenever both have caught up with the source -/
+theorem two_hop_agents_same_hash (tab : Nat → Content)
+    (hkey : ∀ k, (tab (tab k).t).typ = (tab k).typ ∧ (tab (tab k).t).id = (tab k).id) (hsz : ∀ k, 0 < (tab k).sz)
+    (ops1 ops2 : List Op2) (w1 w2 : W2) (h1 : run2 tab {} ops1 = some w1) (h2 : run2 tab {} ops2 = some w2)
+    (hS : w1.S = w2.S) (s1 : w1.S.cur ≤ w1.G.lv) (s2 : w2.S.cur ≤ w2.G.lv) : w1.G.hash = w2.G.hash := by
+  obtain ⟨c1, _, j1, _⟩ := two_hop_converges_no_skip tab hkey hsz ops1 w1 h1
+  obtain ⟨c2, _, j2, _⟩ := two_hop_converges_no_skip tab hkey hsz ops2 w2 h2
+  have e1 := c1 s1
+  have e2 := c2 s2
+  rw [← hS] at e2
+  rw [j1.hash, j2.hash]
+  apply xorAll_match _ _ j1.keys j2.keys
+  · intro x hx; exact ⟨x, (e2 x).mpr ((e1 x).mp hx), sameKey_refl x, rfl⟩
+  · intro y hy; exact ⟨y, (e1 y).mpr ((e2 y).mp hy), sameKey_refl y, rfl⟩
+
+/-- The witness table: entity X (contents 0, 1, 2 — three source versions; 0 and 2 have the SAME compact form 10, 1 has
+    compact form 11) and entity Y (content 3, compact form 13). Transport is the identity. -/
+def tabK : Nat → Content := fun k =>
+  { typ := 0, id := if k = 3 ∨ k = 13 then 2 else 1, name := [], dlen := 0, sz := 40, hash := 1000 + k, ok := true, dis := false,
+    t := k, c := some (if k = 0 ∨ k = 2 then 10 else if k = 1 then 11 else if k = 3 then 13 else k) }
+
+/-- the schedule of the finding: X@1 reaches the aggregator, which saves; X@2 (different compact form) reaches aggregator and
+    agent; X@3 returns to the first form; the aggregator restarts from its (old) file, receives X@3; Y@4 lifts all versions -/
+def rollbackOps : List Op2 :=
+  [.src 1 0, .deliverA 1000 100000 100, .saveA, .src 2 1, .deliverA 1000 100000 100, .deliverG 1000 100000 100,
+   .src 3 2, .restartA 100000, .deliverA 1000 100000 100, .src 4 3, .deliverA 1000 100000 100, .deliverG 1000 100000 100]
+
+/-- non-vacuity of `two_hop_converges_no_skip` on exactly that schedule: with a non-compact aggregator the agent is
+    transiently ahead of the rolled-back aggregator (checked: after `restartA`, A.cur = 1 < G.lv = 2) and ends with X@3 -/
+example : ∃ w, run2 tabK {} rollbackOps = some w ∧ w.S.cur ≤ w.G.lv ∧
+    w.G.entries.map (fun e => (e.ver, e.k)) = [(3, 2), (4, 3)] := ⟨_, rfl, by decide, by decide⟩
+
+example : ∃ w, run2 tabK {} (rollbackOps.take 8) = some w ∧ w.A.cur = 1 ∧ w.G.lv = 2 := ⟨_, rfl, by decide, by decide⟩
+
+/-- FINDING (the code as it is, compact aggregator): the same schedule. The restarted aggregator holds X@1 (compact form
+    10) again; X@3 has compact form 10 too, so `applyUpdate` skips it as unchanged and keeps version 1, which is below the
+    agent's loaderVersion 2: the agent is never sent it. At the end everybody is synced (G.lv = S.cur = 4 = A.cur) and
+    the aggregator holds the stored form of the source's latest X (10), but the agent still holds the intermediate form 11
+    and its hash differs from the aggregator's: the two-hop convergence statement is FALSE for compact aggregators that
+    restart from an older file. (Replayed on the real chain by `verif-c20 -mode=witness`, case 5; known_findings.txt:
+    sig=agent-ahead-of-rolled-back-compact-upstream.) -/
+theorem two_hop_compact_rollback_counterexample :
+    ∃ w, run2 tabK { A := { compact := true } } rollbackOps = some w ∧
+      w.S.cur ≤ w.G.lv ∧ w.S.cur ≤ w.A.lv ∧ w.A.cur ≤ w.G.lv ∧
+      w.S.entries.map (fun e => (e.ver, e.k)) = [(3, 2), (4, 3)] ∧
+      w.A.entries.map (fun e => (e.ver, e.k)) = [(1, 10), (4, 13)] ∧
+      w.G.entries.map (fun e => (e.ver, e.k)) = [(2, 11), (4, 13)] ∧
+      w.G.hash ≠ w.A.hash :=
+  ⟨_, rfl, by decide, by decide, by decide, by decide, by decide, by decide, by decide⟩
+
+/-- the compact aggregator alone is fine in that run (one hop, `converges`): it holds storedAs of the source's latest -/
+example : storedAs tabK true 2 = some 10 ∧ storedAs tabK true 3 = some 13 := by decide
 
 end SH.C20
